@@ -613,6 +613,18 @@ func (w *World) Restore(snap *World) {
 	w.rv, w.uidN, w.clock = snap.rv, snap.uidN, snap.clock
 }
 
+// Versions returns the resource versions at which the object was written (its version history,
+// which clones keep), oldest first.
+func (w *World) Versions(k Key) []int64 {
+	w.mu.Lock()
+	defer w.mu.Unlock()
+	var out []int64
+	for _, v := range w.hist[k] {
+		out = append(out, v.rv)
+	}
+	return out
+}
+
 func (w *World) Clone() *World {
 	w.mu.Lock()
 	defer w.mu.Unlock()
